@@ -84,7 +84,7 @@ class CPSys:
 
         deco = L.cached_property(TLock) if uselock else L.cached_property
 
-        class Res:
+        class ResBase:
             def __init__(self, idx):
                 object.__setattr__(self, "idx", idx)
 
@@ -92,6 +92,9 @@ class CPSys:
                 raise AttributeError(f"cannot assign to field {name!r}")
 
             attr = deco(getter)
+
+        class Res(ResBase):        # the property is inherited: instances are of a subclass of the class that defines it
+            pass
 
         self.insts = {i: Res(i) for i in range(1, ninst + 1)}
         self.task = {t: None for t in range(1, ntask + 1)}
